@@ -18,6 +18,7 @@ from mc.recorders import make_model
 from mc import sched
 
 PROPERTY = "C05"
+SIZE_MODULES = ['mokapot.confidence', 'mokapot.brew', 'mokapot.utils', 'mokapot.parsers.pin', 'mokapot.streaming', 'mokapot.tabular_data', 'mokapot.dataset']  # see mc.runner._sized_passes
 LEVEL = "model_checking"
 RULE = (
     "E1: case = (designed dataset, de-duplication flag, deviations from the reference configuration over the four "
